@@ -346,6 +346,46 @@ def run(tier):
                                "scenario": sc.get("label", "generated"), "dir": sc["dir"], "extstrip": mode, "tree": sc["tree"],
                                "enumeration_a": o1["enum"], "menu_a": menus[o1["order"]],
                                "enumeration_b": o2["enum"], "menu_b": menus[o2["order"]]}, tag="c08-enum-order")
+    # ---------------- histories: metadata edited within the same second, one process ----------------
+    import c07 as c07mod
+    hs = c07mod.history_scenarios()
+    hjobs = [{"op": "c07_history", "tree": t, "dir": "/d", "kinds": ["umn"], "edits": steps, "config": CONFIG}
+             for _, t, steps, _ in hs]
+    fresh_jobs = []
+    for _, t, steps, _ in hs:
+        cur = t
+        for st in steps:
+            cur = c07mod.apply_edits(cur, st)
+            fresh_jobs.append({"op": "c08_menu", "tree": cur, "dir": "/d", "modes": ["nonencoded"], "config": CONFIG,
+                               "orders": ["natural"]})
+    hres = impl_run_parallel(hjobs + fresh_jobs, chunks=12)
+    umnlib.check_ok(hres)
+    fresh = hres[len(hjobs):]
+    k = 0
+    nhist = 0
+    for (label, t0, steps, _), r in zip(hs, hres[:len(hjobs)]):
+        runs = r["res"]["runs"]["umn"]
+        for i, st in enumerate(runs):
+            menu = st["menu"].encode("latin-1").decode("utf-8", "surrogateescape")
+            names = [c["name"] for c in st["world"]["children"]]
+            mcases.append("(%s, (%s, %s), %s, (%s, %s), %s)" % (
+                umnlib.cq_world(st["world"]), cq_alts(st["ignorepatt"]), umnlib.STRIP[st["extstrip"]],
+                cq_natlist(list(range(len(names)))), coq_str(HOST), cq_z(PORT), coq_str(menu) if menu else "(@nil N)"))
+            mcmeta.append(({"label": "history:" + label, "tree": t0}, "step %d" % i))
+            nhist += 1
+            chk.count(("history", label, i))
+            if i == 0:
+                continue
+            fr = fresh[k]["res"]["nonencoded"]["runs"][0]
+            k += 1
+            fmenu = fr["menu"].encode("latin-1").decode("utf-8", "surrogateescape")
+            if menu != fmenu:
+                found = True
+                chk.violation({"what": "after link / .cap / abstract files were edited within the same second (one process, no "
+                                       "clock advance) the menu is not the one a fresh server sends for the same directory",
+                               "history": label, "step": i, "tree_before": t0, "edit_steps": steps[:i],
+                               "menu_in_running_server": menu, "menu_of_fresh_server": fmenu}, tag="c08-stale-metadata")
+    cov.setdefault("histories", {})["menus"] = nhist
     mism_m, err_m, nsh_m = coq_eval("C08", "k_menu", "Lib.Str Lib.Regex Model.DirEntry Model.UMN Model.Dir Corr.K07 Corr.K08",
                                     "chk_menu the_fx", mcases, shard=6, pre=pre)
     mism_l, err_l, nsh_l = coq_eval("C08", "k_mlisting", "Lib.Str Lib.Regex Model.DirEntry Model.UMN Model.Dir Corr.K07",
